@@ -937,6 +937,9 @@ ensures
     _sfg.guard('have_syntax_errors', None, block=r'pub trait SourceTrait\b', why='SourceTrait::have_syntax_errors (C11 gate of analyze_source) is a trait default method that recurses through its own impl: Verus rejects the shape; the analyser is proved against its specification')
     _sfg.guard('new', None, impl='SourceFile', why='SourceFile::new stores the parsed source and the included list: part of what the assumed precondition `analyzable` rests on')
     _sfg.guard('parse_source_and_includes', None, why='parses a text and collects its included files: part of what `analyzable` rests on')
+    # the rest of source_file.rs and of syntax_to_semantics.rs (entry points parse_source_*, the accessors of ParseResult): generic
+    # plumbing around analyze_source / parse_included_files, read by no contract; pinned
+    U.sema_pin_rest = [_sfg, z]
     U.raw('''use source::ParsedSource;
 /// source_file.rs (trusted): searches the path list; the model has no std::path, so the `AsRef<Path>` bounds are dropped (D34)
 #[verifier::external_body] pub fn resolve_file_path<P>(file_path: &String, search_path_list: Option<&[P]>) -> PathBuf { unimplemented!() }
@@ -972,4 +975,6 @@ ensures
                      'source_file.rs: parse_one_included (nested fn: fs, recursion) always yields an entry, resolve_file_path returns a path: trusted stubs, text pinned; the `AsRef<Path>` bounds of parse_included_files are dropped (D34: the model has no std::path)',
                      'std: String::as_ref keeps the characters; Result::clone clones the payload of the same variant; derive(Clone/PartialEq/Debug) structural']
     U.not_verified = ['syntax_to_semantics.rs: ' + ', '.join(sorted(S2S_UNVERIFIED)) + ', syntax_to_semantic, analyze_source, parse_* (generic SourceTrait plumbing)']
+    for _fc in U.sema_pin_rest:
+        _fc.guard_rest('generic plumbing around analyze_source / parse_included_files, read by no contract of unit SEMA: text pinned')
     return U
